@@ -199,6 +199,74 @@ def run(ctx):
     if len(ctx.samples) < 2:
         ctx.sample({'plain': cases[0][0], 'accept': cases[0][1], 'reported': [m['offset'] for m in (res[0]['value'] or [])]})
     model_corr(ctx, cases, res)
+    e2e = [{'src': gen_e2e(rng), 'multi': rng.random() < 0.7} for _ in range(ctx.scale(30, 600))]
+    for c, r in zip(e2e, ctx.pmap(run_e2e, e2e)):
+        ctx.case(('e2e', c['src'], c['multi']), nontrivial=True); ctx.count('e2e_rc_%d' % r['rc'])
+        fails = judge_e2e(c, r)
+        if fails:
+            ctx.violation(fails[0], src=c['src'], multi=c['multi'], kind='e2e')
+
+# ---- end to end: the shell's own messages are reported at their place in the LaTeX file ----------
+
+def gen_e2e(rng):
+    """words and isolated letters in the main text, in an otherlanguage environment, in \\foreignlanguage and in a footnote"""
+    letters = list('bcdfghjkmnpqrtuvwxyz')
+    rng.shuffle(letters)
+    def words(k):
+        out = []
+        for _ in range(k):
+            out.append('W' + ''.join(rng.choice('abcdefgh') for _ in range(rng.randint(2, 5))))
+            if letters and rng.random() < 0.35:
+                out.append(letters.pop())
+        return ' '.join(out)
+    parts = [words(rng.randint(2, 5)) + '.']
+    for _ in range(rng.randint(1, 4)):
+        r = rng.random()
+        if r < 0.35:
+            parts.append('\\begin{otherlanguage}{german}\n' + words(rng.randint(2, 5)) + '.\n\\end{otherlanguage}')
+        elif r < 0.6:
+            parts.append(words(2) + ' \\foreignlanguage{german}{' + words(rng.randint(2, 4)) + '} ' + words(2) + '.')
+        elif r < 0.8:
+            parts.append(words(2) + '\\footnote{' + words(rng.randint(2, 4)) + '.} ' + words(1) + '.')
+        else:
+            parts.append(words(rng.randint(2, 5)) + '.')
+    src = rng.choice(['\n', '\n\n', ' ']).join(parts) + '\n'
+    return src
+
+def run_e2e(case):
+    import shellrun
+    args = ['--packages', 'babel', '--language', 'en-GB', '--single-letters', 'a|I', '--output', 'json']
+    if case['multi']:
+        args += ['--multi-language']
+    return shellrun.run_shell({'files': {'t.tex': case['src']}, 'main': ['t.tex'], 'args': args, 'spec': {}})
+
+def judge_e2e(case, r):
+    import json as _j
+    if r['rc'] != 0:
+        return ['shell failed with exit status %d: %s' % (r['rc'], r['stderr'][-200:])]
+    try:
+        ms = _j.loads(r['stdout'])['matches']
+    except Exception as e:
+        return ['json report unreadable: %s' % e]
+    tex = case['src']
+    want = sorted(m.start() for m in re.finditer(r'(?<![A-Za-z\\])[b-z](?![A-Za-z])', tex))
+    got = []
+    for m in ms:
+        if m.get('length') != 1:
+            continue
+        c = m.get('context') or {}
+        ch = (c.get('text') or '')[c.get('offset', 0):c.get('offset', 0) + 1]
+        if not ('b' <= ch <= 'z'):
+            continue        # a letter of a placeholder (L-L-L of a foreign-language part): isolated in the plain text, not in the file
+        o = m['offset']
+        if tex[o:o + 1] != ch:
+            return ['--single-letters through the shell%s: the message for the letter %r of the plain text is reported at offset %d of the file, where %r stands'
+                    % (' (--multi-language)' if case['multi'] else '', ch, o, tex[max(0, o - 3):o + 4])]
+        got.append(o)
+    if sorted(got) != want:
+        return ['--single-letters through the shell%s: messages at offsets %r, the isolated letters stand at %r'
+                % (' (--multi-language)' if case['multi'] else '', sorted(got), want)]
+    return []
 
 def model_corr(ctx, cases, res):
     """the single-letter scan of the Lean model (accept hits taken from the implementation's own accept scan)"""
@@ -248,6 +316,12 @@ def judge_witness(w):
     return judge_single(c, run_single(c))
 
 def replay(data):
+    v = data['violation']
+    if v.get('kind') == 'e2e':
+        c = {'src': v['src'], 'multi': v['multi']}
+        f = judge_e2e(c, run_e2e(c))
+        print('\n'.join(f) if f else 'ok')
+        return not f
     f = judge_witness(data['violation'])
     print('\n'.join(f) if f else 'ok')
     return not f
